@@ -1,5 +1,53 @@
 import Sigc.Model
-import Sigc.Spec
-/-! property theorems for C06 (being written) -/
+import Sigc.Lemmas.Basic
+import Sigc.Lemmas.Frames
+/-!
+# C06 — library objects can be destroyed in any order without dangling access
+(first theorems: what each destruction unlinks; the all-history invariants are in Sigc/Lemmas/Inv*.lean)
+-/
 namespace Sigc.C06
+open Sigc.Model
+
+/-- destroying the last signal object of a list (no emission running) destroys the list: it is gone
+    from the state, and (`nullConnsList`) every connection into it has been nulled first -/
+theorem gcImpl_drops_unreferenced (s : St) (i : Nat) (im : Impl) (hi : aget s.impls i = some im)
+    (hh : im.holders = 0) (hg : s.G.any (fun p => p.2.impl = some i) = false) :
+    aget (gcImpl s i).impls i = none ∧ (gcImpl s i).S = s.S ∧ (gcImpl s i).G = s.G := by
+  unfold gcImpl
+  simp only [hi, hh, hg]
+  simp [nullConnsList_impls, nullConnsList_S, nullConnsList_G]
+
+/-- a list that a signal object still refers to, or that an emission holds, survives -/
+theorem gcImpl_keeps_referenced (s : St) (i : Nat) (im : Impl) (hi : aget s.impls i = some im)
+    (h : im.holders > 0 ∨ s.G.any (fun p => p.2.impl = some i) = true) :
+    gcImpl s i = s := by
+  unfold gcImpl
+  simp only [hi]
+  rcases h with h | h
+  · have : ¬ im.holders = 0 := by omega
+    simp [this]
+  · simp [h]
+
+/-- destroying a connection variable touches nothing else (the slot stays connected) -/
+theorem delC_frame (s s' : St) (r : String) (i : Nat) (h : stepSimple s (.delC i) = some (s', r)) :
+    s'.impls = s.impls ∧ s'.S = s.S ∧ s'.G = s.G ∧ s'.T = s.T ∧ s'.K = s.K := by
+  simp only [stepSimple] at h
+  split at h <;> simp at h <;> obtain ⟨rfl, _⟩ := h <;> simp
+
+/-- destroying a slot variable touches no signal, connection or trackable, and no other slot variable -/
+theorem delS_frame (s s' : St) (r : String) (i : Nat) (h : stepSimple s (.delS i) = some (s', r)) :
+    s'.impls = s.impls ∧ s'.C = s.C ∧ s'.G = s.G ∧ s'.T = s.T ∧ s'.K = s.K ∧
+    ∀ k, k ≠ i → aget s'.S k = aget s.S k := by
+  simp only [stepSimple] at h
+  split at h
+  · simp at h; obtain ⟨rfl, _⟩ := h; simp
+  · split at h <;> simp at h <;> obtain ⟨rfl, _⟩ := h
+    · simp
+    · refine ⟨rfl, rfl, rfl, rfl, rfl, ?_⟩
+      intro k hk
+      exact aget_adel_other _ _ _ hk
+
+example : aget (gcImpl { impls := [(3, { cells := [{ id := 4, slot := {}, linked := true }] })], C := [(0, some 4)] } 3).C 0 = some none := by
+  simp [gcImpl, aget, nullConnsList, nullConns, amap, adel]
+
 end Sigc.C06
